@@ -62,7 +62,8 @@ class DensityMatrixEvolution(MatrixData, BasisManaged, Saveable):
 
         ti, dt = self.TimeAxis.locate(time)
 
-        return DensityMatrix(data=self.data[ti, :, :])
+        # (a copy: the returned object is basis managed on its own)
+        return DensityMatrix(data=numpy.array(self.data[ti, :, :]))
 
 
     def transform(self, SS, inv=None):
@@ -319,5 +320,6 @@ class ReducedDensityMatrixEvolution(DensityMatrixEvolution):
 
         ti, dt = self.TimeAxis.locate(time)
 
-        return ReducedDensityMatrix(data=self.data[ti, :, :])
+        # (a copy: the returned object is basis managed on its own)
+        return ReducedDensityMatrix(data=numpy.array(self.data[ti, :, :]))
 
